@@ -53,12 +53,12 @@ PROP = {'rule': 'rapid-generated cases. history: rapid state machine over one no
  'units': [{'name': 'deviceshare',
             'pkg': 'pkg/scheduler/plugins/deviceshare',
             'files': ['C07/c07_device_test.go', 'C07/c07_plugin_test.go', 'C07/c07_reservation_test.go', 'C07/c07_complete_test.go'],
-            'tests': [{'run': 'TestVerifC07History', 'quick': 2000, 'thorough': 8000, 'steps': 30},
-                      {'run': 'TestVerifC07Allocate', 'quick': 8000, 'thorough': 50000},
-                      {'run': 'TestVerifC07PluginHistory', 'quick': 2000, 'thorough': 8000, 'steps': 20},
-                      {'run': 'TestVerifC07ReservationHistory', 'quick': 2000, 'thorough': 8000, 'steps': 22},
-                      {'run': 'TestVerifC07RatioFill', 'quick': 2000, 'thorough': 10000},
-                      {'run': 'TestVerifC07JointAllocate', 'quick': 6000, 'thorough': 40000}]}],
+            'tests': [{'run': 'TestVerifC07History', 'quick': 2000, 'thorough': 6000, 'steps': 30},
+                      {'run': 'TestVerifC07Allocate', 'quick': 8000, 'thorough': 30000},
+                      {'run': 'TestVerifC07PluginHistory', 'quick': 2000, 'thorough': 6000, 'steps': 20},
+                      {'run': 'TestVerifC07ReservationHistory', 'quick': 2000, 'thorough': 6000, 'steps': 22},
+                      {'run': 'TestVerifC07RatioFill', 'quick': 2000, 'thorough': 6000},
+                      {'run': 'TestVerifC07JointAllocate', 'quick': 6000, 'thorough': 20000}]}],
  'manifest': {'technique': 'property-based testing (rapid): model-based state machine over the device cache with a ledger oracle after every '
                            'step, plus generated (inventory, usage, request) triples with a validity + completeness oracle for single allocations',
               'text': 'Generated-history search: allocate (real AutopilotAllocator/GPUAllocator, both the direct and the nodeDevice.filter path) + '
